@@ -24,7 +24,12 @@ Definition effects (g : graph) (f : string) : list string :=
    emits it only after checking the call-site shapes.  Everything else (resolve:, fs:, missing:) is forbidden
    before the trust verdict. *)
 Definition permitted (e : string) : bool := String.prefix "reflect:" e.
-Definition inert (g : graph) (f : string) : bool := forallb permitted (effects g f).
+Definition inert_with (perm : string -> bool) (g : graph) (f : string) : bool := forallb perm (effects g f).
+Definition inert (g : graph) (f : string) : bool := inert_with permitted g f.
+
+(* C18: before the serialisation is complete dump() may additionally write INTO MEMORY (mem: = np.save / save_npz into a local
+   io.BytesIO(), writestr into the zip that _save builds over a local io.BytesIO()); it may not touch the file system *)
+Definition permitted_in_memory (e : string) : bool := String.prefix "reflect:" e || String.prefix "mem:" e.
 
 Fixpoint smem (x : string) (l : list string) : bool :=
   match l with [] => false | y :: l' => String.eqb x y || smem x l' end.
@@ -41,5 +46,6 @@ Fixpoint path_end (a : string) (p : list string) : string :=
 
 (* S is a certificate (the translator's own reachable set): it is CHECKED to contain the entries and to be closed
    under the call relation, so it contains everything reachable whatever the translator computed *)
-Definition static_ok (g : graph) (S : list string) (entries : list string) : bool :=
-  closed g S && forallb (fun e => smem e S) entries && forallb (inert g) S.
+Definition static_ok_with (perm : string -> bool) (g : graph) (S : list string) (entries : list string) : bool :=
+  closed g S && forallb (fun e => smem e S) entries && forallb (inert_with perm g) S.
+Definition static_ok (g : graph) (S : list string) (entries : list string) : bool := static_ok_with permitted g S entries.
